@@ -71,8 +71,9 @@ type StrV struct{ A []Atom }
 
 // BytesV is a []byte whose content is a rope (result of []byte(s), Buffer.Bytes()).
 type BytesV struct {
-	S   StrV
-	Nil bool
+	S     StrV
+	Nil   bool
+	Alias *Object // the bytes.Buffer whose storage this slice shares (C20: pooled buffers)
 }
 
 type Object struct {
